@@ -4,6 +4,8 @@ change (seeded/<id>/patch.diff applied to a scratch copy of /repo) and updates
 meta.json's checks/detected_by. Scratch copies are removed."""
 import json, os, subprocess, sys, tempfile, shutil, concurrent.futures as cf
 ROOT = os.path.dirname(os.path.dirname(os.path.abspath(__file__)))
+sys.path.insert(0, os.path.join(ROOT, "scripts"))
+import evrun
 ENV = dict(os.environ, GOFLAGS="-mod=mod", GOPROXY="off", GOSUMDB="off", GOTOOLCHAIN="local", GOWORK="off")
 SELF = None
 argv = sys.argv[1:]
@@ -32,10 +34,11 @@ def one(sid):
         meta["applies_to_current_head"] = True
         out = tempfile.mkdtemp(prefix="evseedout.")
         det = {}
+        results = evrun.run_props(tmp, ALL, out, work=os.path.join(out, "work"))
         for pid in ALL:
-            pr = subprocess.run([os.environ.get("EVCHECK_BIN", os.path.join(ROOT, "bin", "evcheck")), "-repo", tmp, "-verif", ROOT, "-out", out, pid], env=ENV, capture_output=True, text=True)
-            lines = [l.strip() for l in pr.stdout.splitlines() if l.startswith("  C") or l.startswith("UNDECIDED")]
-            det[pid] = {"exit": pr.returncode, "reports": [l[:400] for l in lines[:6]]}
+            rc, text = results[pid]
+            lines = [l.strip() for l in text.splitlines() if l.startswith("  C") or l.startswith("UNDECIDED")]
+            det[pid] = {"exit": rc, "reports": [l[:400] for l in lines[:6]]}
         shutil.rmtree(out, ignore_errors=True)
         if SELF:
             return sid, [k for k, v in det.items() if v["exit"] != 0]
